@@ -46,7 +46,7 @@ impl Args {
         vcommon::report::RunCfg {
             threads: if only.is_some() { 1 } else { self.u("threads", 16) as usize },
             cases: if only.is_some() { 1 } else { self.u("cases", default_cases) },
-            first_case: only.unwrap_or(0),
+            first_case: only.unwrap_or(self.u("first", 0)),
             max_secs: self.f("max-secs", 3600.0),
         }
     }
